@@ -288,6 +288,10 @@ class Circuit:
 
         if len(new_indices) != len(self._qubit_indices):
             raise ValueError("The number of indices does not match the length of self._qubit_indices")
+        # Same requirements as for the qubit indices of a gate: two qubits cannot share a label
+        if any(not isinstance(ind, (int, np.integer)) or isinstance(ind, bool) or ind < 0 for ind in new_indices) or len(set(new_indices)) != len(new_indices):
+            raise ValueError("The new indices must be distinct non-negative integers")
+        new_indices = [int(ind) for ind in new_indices]
 
         # Pair qubit indices in increasing order with their new labels (set iteration order is not index order)
         qubits_in_use = sorted(self._qubit_indices)
